@@ -272,6 +272,20 @@ CLAIMED = {
             'Numerical leaves (ln, log10, lgamma) against mpmath at rtol 1e-9. The MLL sign follows the API docstring / repository '
             'tests. Trusted: vh/xr.py and the world construction shared with C13.',
             '5/C10'),
+    'C20': ('TLA+ permutation modules over the statistic specifications (PermutePoisson.tla, PermuteCatEval.tla; event order: '
+            'Gridding.tla) model-checked by TLC; every public test run on X and pi(X) with agreement flags and IEEE hex strings '
+            'validated by TLC (TracePermute)',
+            'TLC checks that swapping adjacent cells (rates and counts together) leaves every Poisson statistic the same bag of terms '
+            '(3x1 and 2x2 arrays, all rate-id / count matrices) and that swapping adjacent synthetic catalogs leaves status, statistic '
+            'and the distribution bag of all catalog tests unchanged (760 states); event order never reaches a statistic '
+            '(OrderIrrelevant of Gridding.tla). On real code 12 gridded and 6 catalog-based tests are run on random inputs and on '
+            'the same inputs with observed events, synthetic catalogs, or cells + rates (region rebuilt from permuted origins) '
+            're-ordered: observed statistics and analytic quantiles must agree to rounding, simulation-free distributions as sorted '
+            'multisets, and for the seeded simulation-based tests re-ordering the observed events must leave statistic, quantile '
+            'and the whole distribution bit-for-bit identical (hex strings compared by TLC).',
+            'The model-level invariance is proved on small arrays; the float-level claim is by sampling permutations. Trusted: '
+            'agreement flags computed in vh/drivers/c20.py (rtol 1e-9).',
+            '5/C20'),
 }
 
 NOT_YET = 'check not built yet in this round (specification planned in DESIGN.md section 5); not claimed until it exists'
